@@ -713,17 +713,91 @@ class Gen:
         self.force.update({"obs_handle": self.last_handle(), "what": "FULL"})
         self.mk_obs(0)
 
+    def sc_annotated_block(self):
+        """repeated block with measurements and Stim annotations (all detector shapes), exported before and after unrolling"""
+        rng = self.rng
+        self.force["reps"] = {"fixed": rng.choice([2, 2, 3])}
+        self.mk_new(0)
+        blk = self.last_handle()
+        nq = self.n_qubits
+        for _ in range(rng.randint(1, 3)):
+            self.force.update({"handle": blk, "kind": rng.choice(["DispersiveMeasure", "Rx180", "Hadamard", "CPhase" if nq > 1 else "Ry90", "Barrier"])})
+            self.mk_add_op(0)
+        for _ in range(rng.randint(1, 3)):
+            kind = rng.choice(["DetectorOperation", "DetectorOperation", "LogicalObservableOperation", "CoordinateShiftOperation"])
+            self.force.update({"handle": blk, "kind": kind})
+            n0 = len(self.steps)
+            self.mk_add_op(0)
+            if len(self.steps) > n0 and kind == "DetectorOperation" and rng.random() < 0.6:
+                L = rng.randint(2, 6)
+                d = {"last_acquisition_index": L, "main_target": rng.randint(0, L), "secondary_target": rng.randint(0, L),
+                     "reference_offset": rng.randint(1, 6)}
+                if rng.random() < 0.7:
+                    d["secondary_offset"] = rng.randint(0, 4)
+                self.steps[-1]["det"] = d
+                self.model.entries[blk][-1].extra = [["det", d.get("last_acquisition_index"), d.get("main_target"), d.get("secondary_target"), d.get("reference_offset"), d.get("secondary_offset")]]
+        self.force["reps"] = {"fixed": 1}
+        self.mk_new(0)
+        top = self.last_handle()
+        if rng.random() < 0.6:
+            self.force["handle"] = top
+            self.mk_add_op(0)
+        self.force.update({"parent": top, "child": blk})
+        self.mk_add_sub(0)
+        if rng.random() < 0.5:
+            self.force.update({"obs_handle": top, "what": "STIM"})
+            self.mk_obs(0)
+        self.force["handle"] = top
+        self.mk_apply(0)
+        self.force.update({"obs_handle": self.last_handle(), "what": rng.choice(["FULL", "STIM", "FULL"])})
+        self.mk_obs(0)
+
+    def sc_registry_reps_export(self):
+        """registry-provided repetition count changed between two looks at the same circuit"""
+        rng = self.rng
+        key = rng.choice(["k0", "k1"])
+        self.force["reps"] = {"reg": ["rr0", key]}
+        self.mk_new(0)
+        blk = self.last_handle()
+        for _ in range(rng.randint(1, 3)):
+            self.force["handle"] = blk
+            self.mk_add_op(0)
+        if rng.random() < 0.7:
+            self.emit({"s": 0, "op": "SET_REP", "r": "rr0", "key": key, "v": rng.choice([1, 2])})
+            self.model.rregs.setdefault("rr0", {})[key] = self.steps[-1]["v"]
+        self.force["reps"] = {"fixed": 1}
+        self.mk_new(0)
+        top = self.last_handle()
+        if rng.random() < 0.5:
+            self.force["handle"] = top
+            self.mk_add_op(0)
+        self.force.update({"parent": top, "child": blk})
+        self.mk_add_sub(0)
+        what = rng.choice(["STIM", "STIM", "OPENQL", "FULL", "COMPOSITES"]) if self.pname != "C15" else "OPENQL"
+        self.force.update({"obs_handle": top, "what": what})
+        self.mk_obs(0)
+        self.emit({"s": 0, "op": "SET_REP", "r": "rr0", "key": key, "v": rng.choice([2, 3, 3])})
+        self.model.rregs.setdefault("rr0", {})[key] = self.steps[-1]["v"]
+        self.force.update({"obs_handle": top, "what": what})
+        self.mk_obs(0)
+        if rng.random() < 0.5:
+            self.force["handle"] = top
+            self.mk_apply(0)
+            self.force.update({"obs_handle": self.last_handle(), "what": "FULL"})
+            self.mk_obs(0)
+
     SCENARIOS = {
         "C11": [(0.15, "sc_lib_apply_flatten")],
-        "C06": [(0.10, "sc_lib_apply_flatten"), (0.10, "sc_nested_reps"), (0.06, "sc_unroll_then_copy"), (0.10, "sc_three_levels")],
-        "C08": [(0.12, "sc_lib_apply_flatten"), (0.08, "sc_nested_reps")],
-        "C07": [(0.12, "sc_lib_apply_flatten"), (0.05, "sc_nested_reps")],
-        "C05": [(0.15, "sc_unroll_then_copy"), (0.05, "sc_nested_reps"), (0.06, "sc_three_levels")],
+        "C06": [(0.10, "sc_lib_apply_flatten"), (0.10, "sc_nested_reps"), (0.06, "sc_unroll_then_copy"), (0.10, "sc_three_levels"), (0.06, "sc_registry_reps_export"), (0.04, "sc_annotated_block")],
+        "C08": [(0.10, "sc_lib_apply_flatten"), (0.06, "sc_nested_reps"), (0.15, "sc_annotated_block"), (0.08, "sc_registry_reps_export")],
+        "C07": [(0.12, "sc_lib_apply_flatten"), (0.05, "sc_nested_reps"), (0.06, "sc_annotated_block")],
+        "C05": [(0.15, "sc_unroll_then_copy"), (0.05, "sc_nested_reps"), (0.06, "sc_three_levels"), (0.05, "sc_annotated_block")],
         "C02": [(0.12, "sc_nested_reps")],
         "C01": [(0.06, "sc_nested_reps"), (0.04, "sc_unroll_then_copy")],
-        "C03": [(0.05, "sc_nested_reps"), (0.05, "sc_unroll_then_copy"), (0.04, "sc_lib_apply_flatten"), (0.03, "sc_three_levels")],
+        "C03": [(0.05, "sc_nested_reps"), (0.05, "sc_unroll_then_copy"), (0.04, "sc_lib_apply_flatten"), (0.03, "sc_three_levels"), (0.05, "sc_registry_reps_export")],
         "C04": [(0.05, "sc_nested_reps")],
         "C18": [(0.04, "sc_lib_apply_flatten")],
+        "C15": [(0.08, "sc_registry_reps_export")],
     }
 
     # ------------------------------------------------------------ main loop
